@@ -262,6 +262,14 @@ def run(ctx):
             res.check(max(x.lineno for x in rn) < min(x.lineno for x in re_), "E-2PHASE", f, "remove_node ... remove_edge", "nodes-first", "hyperedges are filtered before nodes (hyperedges shrunk / dropped by node removal would be judged on stale data)", loc(v.fi, v.fi.node))
         else:
             res.unknown("E-2PHASE", f, "remove_node ... remove_edge", "nodes-first", "the two removal passes were not both recognised", loc(v.fi, v.fi.node))
+        # hyperedges are SELECTED after the node pass too: a hyperedge shrunk by node removal (keep_edges=True) exists
+        # under a new key, one dropped with its node no longer exists
+        hg_ = v.fi.params[0].arg
+        esel = [n for n in walk_no_nested(v.fi.node) if isinstance(n, ast.Call) and isinstance(n.func, ast.Attribute) and n.func.attr == "get_edges" and norm(n.func.value) == hg_ and any(k.arg == "metadata" for k in n.keywords)]
+        for sel in esel:
+            sid = v.cfg_id(sel)
+            stale = [r for r in rn if v.cfg_id(r) != sid and v.cfg.reachable(sid, v.cfg_id(r))]
+            res.check(not stale, "E-2PHASE", f, norm(sel), "select-after-node-pass", "hyperedges are selected before the nodes are removed: with keep_edges=True the shrunk hyperedges (new keys) escape the hyperedge criteria, and already removed ones are looked up again", loc(v.fi, sel))
         for r in rn:
             kw = {k.arg: k.value for k in r.keywords}
             ok = ("keep_edges" in kw and norm(v.inline(kw["keep_edges"])) == "keep_edges") or (len(r.args) >= 2 and norm(v.inline(r.args[1])) == "keep_edges")
